@@ -110,22 +110,26 @@ class RCUTableFingerprint():
                 f"{0.0}  <- (events={self.dataitems} > table={other.dataitems})")
             return 0.0
 
-        sim_val += self.sim_weights["tab_len"] * (self.dataitems / other.dataitems)
+        # an empty table matches an empty event stream completely (0/0 counts as 1)
+        len_ratio = self.dataitems / other.dataitems if other.dataitems > 0 else 1.0
+        sim_val += self.sim_weights["tab_len"] * len_ratio
         aiulog.log(
             aiulog.DEBUG, "   SIMVAL(tablelen):",
-            f"{sim_val}  <- ({self.dataitems} / {other.dataitems} = {self.dataitems / other.dataitems})")
+            f"{sim_val}  <- ({self.dataitems} / {other.dataitems} = {len_ratio})")
 
         # exclude table canditate if
         if other.totaltime > self.totaltime:
             aiulog.log(
                 aiulog.DEBUG, "   SIMVAL(totaltim):",
-                f"0.0  <- ({other.totaltime} / {self.totaltime} = {other.totaltime / self.totaltime})")
+                f"0.0  <- ({other.totaltime} > {self.totaltime})")
             return 0.0
 
-        sim_val += self.sim_weights["total_time"] * (other.totaltime / self.totaltime)
+        # a table whose ideal cycles are all zero has the same (zero) total as the events it lists (0/0 counts as 1)
+        time_ratio = other.totaltime / self.totaltime if self.totaltime > 0 else 1.0
+        sim_val += self.sim_weights["total_time"] * time_ratio
         aiulog.log(
             aiulog.DEBUG, "   SIMVAL(totaltim):",
-            f"{sim_val}  <- ({other.totaltime} / {self.totaltime} = {other.totaltime / self.totaltime})")
+            f"{sim_val}  <- ({other.totaltime} / {self.totaltime} = {time_ratio})")
         return sim_val
 
 
